@@ -124,18 +124,17 @@ class Rlencode(Contract):
         rank = ghost["rank"] if "rank" in ghost else (lambda k: 0)
         out = rle_spec(a, n, S, Ln, Vv, rank)
         m = L(S)
-        # consequence by induction (lemma constant-run, proved below): every run is constant
-        j = self._v.Int("run")
-        lo_j = S[j]
-        hi_j = If(j + 1 < m, S[j + 1], n)
-        inside = And(0 <= j, j < m)
-        no_change = forall(lo_j + 1, hi_j, lambda k: a[k] == a[k - 1])      # antecedent of the lemma
-        constant = forall(lo_j, hi_j, lambda k: a[k] == a[lo_j])             # its conclusion
-        out["hint:no-change-point-inside-a-run"] = Implies(inside, no_change)
-        # lemma constant-run: no_change ==> constant.  Its antecedent has just been proved (hint above),
-        # so the instance contributes its conclusion.
-        out["by-lemma:constant-run@arbitrary-run"] = Implies(inside, constant)
-        out["runs-are-constant"] = Implies(inside, forall(lo_j, hi_j, lambda k: a[k] == Vv[j]))
+        # consequence by induction (lemma constant-run, proved below): every run is constant.
+        # Stated for all runs j and all positions k of run j (flat two-variable form).
+        nxt = lambda j: If(j + 1 < m, S[j + 1], n)
+        in_run = lambda j, k: And(S[j] <= k, k < nxt(j))
+        out["hint:no-change-point-inside-a-run"] = forall2(0, m, 1, n, lambda j, k: Implies(
+            And(S[j] < k, k < nxt(j)), a[k] == a[k - 1]))
+        # lemma constant-run: (no change point inside [p, q)) ==> a constant on [p, q).  Its antecedent
+        # has just been proved for every run, so the instances contribute the conclusion.
+        out["by-lemma:constant-run@every-run"] = forall2(0, m, 0, n, lambda j, k: Implies(in_run(j, k), a[k] == a[S[j]]))
+        out["runs-are-constant"] = forall2(0, m, 0, n, lambda j, k: Implies(in_run(j, k), a[k] == Vv[j]))
+        out["runs-cover-the-array"] = Implies(n > 0, And(S[0] == 0, nxt(m - 1) == n))
         return out
 
     def lemmas(self, path, v):
@@ -146,3 +145,70 @@ class Rlencode(Contract):
         path.oblige("lemma", "constant-run/base", Implies(p < q, a[p] == a[p]))
         path.oblige("lemma", "constant-run/step",
                     Implies(And(p <= k, k + 1 < q, a[k] == a[p]), a[k + 1] == a[p]))
+
+
+def rl_index_spec(O, A, nvals, upto=None):
+    """O[i] is the lower bound of i in the sorted array A, for all i < upto (default nvals + 1):
+    every position before O[i] holds a value < i, every position from O[i] on a value >= i"""
+    upto = nvals + 1 if upto is None else upto
+    return And(forall(0, upto, lambda i: And(0 <= O[i], O[i] <= L(A))),
+               forall2(0, upto, 0, L(A), lambda i, k: And(Implies(k < O[i], A[k] < i), Implies(k >= O[i], A[k] >= i))))
+
+
+def _mk_index_contract(name, target, keycol, outname, nvalsarg, totalarg, chunked):
+    class C(Contract):
+        __doc__ = f"C02: {name} builds exactly the run-length (lower-bound) index of `{keycol}`"
+        props = ["C02", "C01"]
+
+        def configs(self, v):
+            def f(v):
+                A = v.Arr(keycol)
+                return {"grp": {keycol: A}, nvalsarg: v.Int(nvalsarg), totalarg: v.Int(totalarg)}
+            yield "", f
+
+        def requires(self, **a):
+            A = a["grp"][keycol]
+            nvals, total = a[nvalsarg], a[totalarg]
+            return [nvals >= 0, total == L(A), nondecreasing(A), forall(0, L(A), lambda k: And(0 <= A[k], A[k] < nvals))]
+
+        def _inv(self, S):
+            A = S.grp[keycol]
+            nvals, total = getattr(S, nvalsarg), getattr(S, totalarg)
+            O = getattr(S, outname)
+            t = S.it
+            vl_at = lambda k: S.item_at(k)[2]
+            cur = S.curr_val
+            return {
+                "offset-length": O.n == nvals + 1,
+                "curr-val": And(cur == If(t == 0, 0, vl_at(t - 1) + 1), 0 <= cur, cur <= nvals),
+                "filled-part-is-the-lower-bound-index": rl_index_spec(O, A, nvals, upto=cur),
+            }
+
+        @property
+        def loops(self):
+            return {0: LoopSpec(self._inv)}
+
+        def result(self, v, **a):
+            return v.Arr(outname, n=a[nvalsarg] + 1)
+
+        def ensures(self, result, **a):
+            A = a["grp"][keycol]
+            nvals, total = a[nvalsarg], a[totalarg]
+            O = result
+            return {
+                "length": L(O) == nvals + 1,
+                "is-the-run-length-index": rl_index_spec(O, A, nvals),
+                "starts-at-0": O[0] == 0,
+                "ends-at-total": O[nvals] == total,
+                # the key stored at an offset is at least the row (instance k = O[i] of the index property;
+                # it puts the terms A[O[i]] on the table for the monotonicity argument)
+                "hint:key-at-offset": forall(0, nvals + 1, lambda i: Implies(O[i] < L(A), A[O[i]] >= i)),
+                "nondecreasing": forall2(0, nvals + 1, 0, nvals + 1, lambda i1, i2: Implies(i1 <= i2, O[i1] <= O[i2])),
+            }
+    C.target = target
+    C.__name__ = name
+    return contract(C)
+
+
+IndexPixels = _mk_index_contract("IndexPixels", f"{CR}:index_pixels", "bin1_id", "bin1_offset", "n_bins", "nnz", True)
+IndexBins = _mk_index_contract("IndexBins", f"{CR}:index_bins", "chrom", "chrom_offset", "n_chroms", "n_bins", False)
